@@ -233,7 +233,7 @@ func pruningOf(p *[2]int64) *store.PruningOptions {
 func guarded(fn func()) (msg, stack string) {
 	defer func() {
 		if r := recover(); r != nil {
-			msg = fmt.Sprintf("%v", r)
+			msg = strings.Join(strings.Fields(fmt.Sprintf("%v", r)), " ")
 			if msg == "" {
 				msg = "panic"
 			}
